@@ -117,7 +117,7 @@ def run(ctx):
 
 
 def generic_suffix(sh):
-    if sh["name"] == "G1":
+    if sh["name"] in ("G1", "G3", "G4", "G5"):
         return "<T>"
     if sh["name"] == "G2":
         return "<A, B>"
